@@ -19,7 +19,9 @@
 (* anyExtendedKeyUsage or an unknown OID; intermediates or roots carrying  *)
 (* an extended key usage that excludes serverAuth (other than the CT usage *)
 (* of a precertificate signing certificate); a poison extension that is    *)
-(* not critical or not NULL; a precertificate without authority key        *)
+(* not critical, or critical and not NULL sent to add-pre-chain (critical  *)
+(* and not NULL sent to add-chain is type "badpoison"); a precertificate   *)
+(* without authority key                                                   *)
 (* identifier; chains with unrelated extra certificates; name, path length *)
 (* and policy constraints; expired or not yet valid certificates (the      *)
 (* window is about NotAfter only); JSON bodies with extra fields or        *)
@@ -43,7 +45,11 @@ Gens == 1..Len(Schedule)
 \* The abstract submission.
 Positions == {"before", "start", "inside", "limitm1", "limit", "after"}  \* leaf NotAfter against [start, limit)
 InWindow(p) == p \in {"start", "inside", "limitm1"}
-Types == {"cert", "precert"}
+\* "badpoison": a leaf carrying the CT poison extension marked critical with a value that is not
+\* ASN.1 NULL.  It is not a precertificate (RFC 6962 3.1), and as a final certificate it does not
+\* verify for TLS server authentication (an unhandled critical extension), so on add-chain both
+\* readings refuse it; the add-pre-chain answer is not fixed by the statement and is not generated
+Types == {"cert", "precert", "badpoison"}
 Ekus == {"serverAuth", "other", "none"}
 Orders == {"ok", "leafNotFirst", "swapped"}   \* swapped: the two certificates after the leaf exchanged
 Endpoints == {"add-chain", "add-pre-chain"}
@@ -63,6 +69,7 @@ WellFormed(c) ==
     /\ c.variant \in Variants[c.body]
     /\ (c.rootSent => c.length >= 2)
     /\ (c.preissuer => c.type = "precert")
+    /\ (c.type = "badpoison" => c.ep = "add-chain" /\ c.body = "ok" /\ c.order = "ok" /\ c.eku = "serverAuth")
     /\ (c.preissuer => c.length >= (IF c.rootSent THEN 3 ELSE 2))
     /\ (c.order = "leafNotFirst" => c.length >= 2)
     /\ (c.order = "swapped" => c.length >= 3)
@@ -84,7 +91,7 @@ Cases == OkCases \cup BadBodyCases
 \* length of the verified chain: the submitted certificates plus the root
 FullLen(c) == c.length + (IF c.rootSent THEN 0 ELSE 1)
 
-EndpointMatches(c) == c.ep = (IF c.type = "cert" THEN "add-chain" ELSE "add-pre-chain")
+EndpointMatches(c) == c.type # "badpoison" /\ c.ep = (IF c.type = "cert" THEN "add-chain" ELSE "add-pre-chain")
 
 Accept(c, roots) ==
     /\ c.body = "ok"
